@@ -29,6 +29,30 @@ pub fn type_table_oracle(out: &mut Out) {
     }
 }
 
+/// the reference public-suffix rules, loaded once
+pub fn psl() -> Option<&'static Psl> {
+    static P: std::sync::OnceLock<Option<Psl>> = std::sync::OnceLock::new();
+    P.get_or_init(Psl::load).as_ref()
+}
+
+/// The party of a request against the reference public-suffix lookup (plain lower-case hosts only): third party exactly when
+/// the registrable domains of request and initiator differ. For the checks of other properties, whose model is handed the party.
+pub fn party_oracle(out: &mut Out, url: &str, src: &str, req: &Request) {
+    let (p, pu, ps) = match (psl(), parse_url(url), parse_url(src)) {
+        (Some(p), Some(pu), Some(ps)) => (p, pu, ps),
+        _ => return,
+    };
+    let (h, sh) = (pu.hostname().to_string(), ps.hostname().to_string());
+    if !is_tame_host(&h) || !is_tame_host(&sh) {
+        return;
+    }
+    let third = p.domain(&h) != p.domain(&sh);
+    if third != req.is_third_party {
+        out.fail("party-differs-from-reference", None, json!({"url": url, "source": src, "host": h, "source_host": sh, "is_third_party": req.is_third_party, "reference": third}));
+    }
+    out.bump("party_reference_checks");
+}
+
 /// The URL scanner on one ASCII URL against its model (`url` op): scheme, host and the normalised text. For the checks of
 /// other properties whose requests must be read the way the model reads them.
 pub fn emit_url_case(out: &mut Out, url: &str) {
